@@ -255,6 +255,11 @@ func runC02(seed int64, n int, tier string, outDir string) (*Report, error) {
 		"  match marshal_root jw_tables i with Some b => (N.of_nat (length b) =? fst o)%N && (fnv64 b =? snd o)%N | None => false end.\n"
 	cw := NewCaseWriter(outDir, "Cases_C02", hdr, "item * (N * N)")
 	cw.SetChunk(25, 1)
+	// Cases_C02_rfc (b61): the LITERAL bytes the library wrote, judged inside Coq by the recogniser of the RFC 8259 grammar
+	// (Spec/Rfc8259Rec.v, proved sound and complete for the inductive grammar of Spec/Rfc8259.v: Proofs/Rfc8259RecP.v) -
+	// a JSON text no object of which repeats a decoded member name.  Independent of the encoder model (no item is sent, only
+	// the bytes) and of encoding/json.  json_names_unique_b b = true implies json_text_b b = true (C02_recogniser_names).
+	rfc := newC02Rfc(outDir, rep)
 	opts := DefaultOpts()
 	opts.Hostile = true
 	opts.Nanos = false
@@ -282,6 +287,7 @@ func runC02(seed int64, n int, tier string, outDir string) (*Report, error) {
 		rep.Evaluations++
 		term := CoqItem(it)
 		cw.Add("("+term+", "+hxSum(out)+")", fmt.Sprintf("seed=%d index=%d", seed, i))
+		rfc.add(out, fmt.Sprintf("seed=%d index=%d", seed, i))
 		c02Native(it, out, rep, i)
 		// what is written for a value does not depend on package state: the exported variable DefaultLang (the tag the
 		// convenience constructors give new text) set to a language the value may hold - same bytes
@@ -345,6 +351,7 @@ func runC02(seed int64, n int, tier string, outDir string) (*Report, error) {
 				rep.Evaluations++
 				rep.Count("directed:text-with-empty-values")
 				cw.Add("("+CoqItem(it)+", "+hxSum(out)+")", fmt.Sprintf("empty texts %s.%s #%d", rt.Name(), rt.Field(fi).Name, vi))
+				rfc.add(out, fmt.Sprintf("empty texts %s.%s #%d", rt.Name(), rt.Field(fi).Name, vi))
 				c02Native(it, out, rep, 100000+ti*1000+fi*10+vi)
 			}
 		}
@@ -386,6 +393,7 @@ func runC02(seed int64, n int, tier string, outDir string) (*Report, error) {
 			}
 			rep.Evaluations++
 			cw.Add("("+CoqItem(it)+", "+hxSum(out)+")", fmt.Sprintf("directed dup-language-tag map=%d", j))
+			rfc.add(out, fmt.Sprintf("directed dup-language-tag map=%d", j))
 			c02Native(it, out, rep, idx)
 			rep.Count("directed:language-map")
 		}
@@ -409,6 +417,7 @@ func runC02(seed int64, n int, tier string, outDir string) (*Report, error) {
 		out, _ := m.MarshalJSON()
 		rep.Evaluations++
 		cw.Add("("+CoqItem(it)+", "+hxSum(out)+")", fmt.Sprintf("directed re-serialised document=%d", j))
+		rfc.add(out, fmt.Sprintf("directed re-serialised document=%d", j))
 		c02Native(it, out, rep, idx)
 		rep.Count("directed:re-serialised")
 	}
@@ -452,6 +461,7 @@ func runC02(seed int64, n int, tier string, outDir string) (*Report, error) {
 				if k%3 == 0 {
 					cw.Add("("+CoqItem(it)+", "+hxSum(out)+")", fmt.Sprintf("silent member %d", k))
 				}
+				rfc.add(out, fmt.Sprintf("silent member %d", k))
 				c02Native(it, out, rep, 200000+k)
 				k++
 			}
@@ -496,6 +506,7 @@ func runC02(seed int64, n int, tier string, outDir string) (*Report, error) {
 			rep.Evaluations++
 			rep.Count("directed:odd-item-positions")
 			cw.Add("("+CoqItem(it)+", "+hxSum(out)+")", fmt.Sprintf("odd item position %d", j))
+			rfc.add(out, fmt.Sprintf("odd item position %d", j))
 			c02Native(it, out, rep, 250000+j)
 		}
 	}
@@ -504,6 +515,9 @@ func runC02(seed int64, n int, tier string, outDir string) (*Report, error) {
 		it := g.Struct(structTypes[i%len(structTypes)], opts)
 		out, err := ap.MarshalJSON(it)
 		rep.Evaluations++
+		if err == nil {
+			rfc.add(out, fmt.Sprintf("activitypub.MarshalJSON (jsonld wrapper) %d", i))
+		}
 		if err == nil && len(out) > 0 && !json.Valid(out) {
 			rep.Violate(Violation{Op: "activitypub.MarshalJSON", Input: CoqItem(it), Expected: "valid JSON", Observed: string(out), Index: i})
 		} else if err == nil && len(out) > 0 {
@@ -546,12 +560,57 @@ func runC02(seed int64, n int, tier string, outDir string) (*Report, error) {
 				rep.Violate(Violation{Op: "MarshalJSON", Input: fmt.Sprintf("%#v", it), Expected: "no error", Observed: err.Error()})
 			}
 			c02Native(it, out, rep, 400000+j)
+			if err == nil {
+				rfc.add(out, fmt.Sprintf("inexpressible numbers / instants / IRI lists %d", j))
+			}
 		}
 	}
 	if err := rep.AddCases(cw); err != nil {
 		return nil, err
 	}
+	if err := rep.AddCases(rfc.w); err != nil {
+		return nil, err
+	}
 	return rep, nil
+}
+
+// c02Rfc collects the literal outputs of the library for Cases_C02_rfc: each distinct non-empty output of at most
+// c02RfcMax bytes is sent once; longer ones are counted (rfc:skipped-longer-than-2500) and stay with the native oracle
+// and the (length, checksum) comparison with the encoder model.
+type c02Rfc struct {
+	w    *CaseWriter
+	rep  *Report
+	seen map[string]bool
+}
+
+const c02RfcMax = 2500
+
+func newC02Rfc(outDir string, rep *Report) *c02Rfc {
+	// Vocab only for the generic list function `mismatches` of the case-file protocol
+	hdr := "From AP.Model Require Import Prelude Vocab.\nFrom AP.Spec Require Import Rfc8259 Rfc8259Rec.\n" +
+		"Definition ok (out : bytes) : bool := json_names_unique_b out.\n"
+	w := NewCaseWriter(outDir, "Cases_C02_rfc", hdr, "bytes")
+	w.SetChunk(40, 1)
+	return &c02Rfc{w: w, rep: rep, seen: map[string]bool{}}
+}
+
+func (c *c02Rfc) add(out []byte, label string) {
+	switch {
+	case len(out) == 0:
+		c.rep.Count("rfc:empty-output")
+		return
+	case string(out) == "<panic>":
+		return
+	case len(out) > c02RfcMax:
+		c.rep.Count("rfc:skipped-longer-than-2500")
+		return
+	case c.seen[string(out)]:
+		c.rep.Count("rfc:same-bytes-already-sent")
+		return
+	}
+	c.seen[string(out)] = true
+	c.rep.Count("rfc:literal-output-judged-by-the-recogniser")
+	c.w.Add(hx(out), label)
 }
 
 // withDefaultLang runs f with the package variable DefaultLang set to l and restores it.
